@@ -23,6 +23,11 @@
                                  logic succeeded (so: neither TC nor an error SERVFAIL) carries, on the finished octets,
                                  the NS RRset and — first in the additional section — EVERY address record the zone
                                  holds for the name servers at/below the delegated zone
+     c04_only_optional_omitted_partial   (third wave) clause (iv) for EVERY question (CNAME chains, ANY, negative answers
+                                 included), per response against the idealised answer: whenever the answering logic
+                                 succeeds on the octet-level Writer, the decoded answer and authority sections are those of
+                                 the idealised (never-truncating) run of the same logic — which is C05's resolve — and the
+                                 decoded additional section is the idealised one minus some records of its optional tail
    What is NOT proved and is decided per case by the extracted oracle [pair_check] (Spec/RespS.v) on
    the real server's two responses to every generated request: clause (iii) for answers that end in
    SERVFAIL (false there: finding C04-1), clause (iv) "otherwise a TC-clear UDP response differs only
@@ -31,7 +36,8 @@
 From QV Require Import Base.Res Base.Octets Model.MsgWriter Model.ZoneTree Model.Query Model.QueryW
   Proofs.MsgWriterInvP Proofs.QueryWP Proofs.ServerLimitP Proofs.WriterMonoP Proofs.QueryMonoP Spec.MsgWriterS Spec.RespS.
 From QV Require Model.Server Spec.NameRepr.
-From QV Require Import Spec.ZoneLookupS Spec.MsgWriterAbsS Proofs.MsgWriterDecP Proofs.ComposeTraceP Proofs.ComposeTcP Proofs.ComposeGlueP.
+From QV Require Import Spec.ZoneLookupS Spec.MsgWriterAbsS Proofs.MsgWriterDecP Proofs.ComposeTraceP Proofs.ComposeTcP Proofs.ComposeGlueP Proofs.ComposeAbsP.
+From QV Require Spec.ResolveS Spec.ResolveRepr.
 
 Theorem c04_response_within_limit : forall negttl buf tcp id rd qname qtype qclass edns limit z len b,
   respond_w negttl buf tcp id rd qname qtype qclass edns limit z = Some (len, b) ->
@@ -289,6 +295,45 @@ Theorem c04_optional_only_partial : forall reqf apex cls wide recs z negttl buf 
     end.
 Proof. exact respond_found_optional_build. Qed.
 
+(* CLAUSE (iv) IN GENERAL, per response against the idealised answer — and the bridge from the octets to C05.
+   For every zone built by adds, every question at/below the apex (any QTYPE: direct answers, CNAME chains, referrals,
+   ANY, negative answers), both transports, any limits: respond_w decodes, and if the answering logic (answer / answer_any
+   of query.rs driving the octet-level Writer) succeeded, then with r the response of the SAME logic on the idealised
+   never-truncating Writer (answer_rec, the object of C05; = the RFC resolution algorithm [resolve] by c05_answer_refines):
+     - the decoded answer section is r's answer section and the decoded authority section is r's authority section
+       (record by record: owner and RDATA names modulo ASCII case, type, class, TTL, RDATA — C12's rr_rel);
+     - r's additional section splits as M ++ O and the decoded additional section is M' ++ X' ++ P with M' the records
+       of M, X' the records of an order-preserving sub-selection X of O, and P only pseudo-records (the OPT).
+   Hence any two successful responses to the same question — over UDP and over TCP, under any limits — have the same
+   answer and authority sections and differ only by omitted records of the additional section; a complete response
+   omits nothing.  PARTIAL with respect to the literal clause (iv): (a) the condition is the model-level "answering
+   succeeded" (by c04_tc_shape / c04_tc_on_the_octets the other endings are exactly the TC and SERVFAIL responses);
+   (b) that the mandatory part M contains every in-bailiwick glue record is stated only for direct referrals
+   (c04_glue_complete_partial); here M is whatever was written before the first optional record. *)
+Theorem c04_only_optional_omitted_partial : forall reqf apex cls wide recs z buf tcp id rd qname qtype qclass edns limit,
+  (forall c t a b d, reqf c t a b = true -> reqf c t b d = true -> reqf c t a d = true) ->
+  zone_build reqf (zone_new apex cls wide) recs = Some z ->
+  Forall (fun r => good_rd (r_rdata r) /\ (r_type r < 65536)%N) recs -> good_name apex -> (cls < 65536)%N ->
+  512 <= length buf -> good_name qname -> in_zone apex qname = true ->
+  (id < 65536)%N -> (qtype < 65536)%N -> (qclass < 65536)%N -> (forall s, edns = Some s -> (s < 65536)%N) ->
+  exists w len b m,
+    prepare_w buf tcp id rd qname qtype qclass edns limit = Some w /\
+    respond_w neg_ttl buf tcp id rd qname qtype qclass edns limit z = Some (len, b) /\
+    decode_msg (firstn len b) = Some m /\
+    match answering z neg_ttl w_iface qname qtype w with
+    | Ok _ =>
+      exists r, answer_rec z qname qtype tcp = Some r /\
+        ResolveRepr.norm_rec r = ResolveS.resolve reqf apex cls (accepted apex cls recs) qname qtype /\
+        Forall2 (rr_rel xparts) (map q2a (rc_an r)) (m_an m) /\
+        Forall2 (rr_rel xparts) (map q2a (rc_ns r)) (m_ns m) /\
+        exists M X O dsM dsX dsP,
+          map q2a (rc_ar r) = M ++ O /\ Sub X O /\
+          m_ar m = dsM ++ dsX ++ dsP /\ Forall2 (rr_rel xparts) M dsM /\ Forall2 (rr_rel xparts) X dsX /\
+          forallb is_pseudo dsP = true
+    | _ => True
+    end.
+Proof. exact respond_w_vs_resolve. Qed.
+
 (* Non-vacuity: zone a. with the delegation sub.a. NS ns.sub.a. / NS ns.other. and the glue ns.sub.a. A 5.6.7.8:
    the lookup of x.sub.a. is a referral, its glue list is that one A record, and do_referral succeeds in 512 octets. *)
 Definition ex_recs4 : list record :=
@@ -311,6 +356,7 @@ Example c04_glue_example :
   end.
 Proof. vm_compute. split; [reflexivity|exact I]. Qed.
 
+Print Assumptions c04_only_optional_omitted_partial.
 Print Assumptions c04_glue_complete_partial.
 Print Assumptions c04_optional_only_partial.
 Print Assumptions c04_tc_on_the_octets.
